@@ -146,6 +146,9 @@ def finish(ctx, res, level="model_checking"):
     return 1 if nviol else 0
 
 
+_BUMPED = []
+
+
 def process_noise(k=0):
     """Exercise other public APIs - including calls that raise half-way - so that state they might leave behind at module
     or class level (rendering flags, numpy error state, id counters, module-level caches) is present when the observed call
@@ -155,6 +158,12 @@ def process_noise(k=0):
         from mathy_core.expressions import AddExpression, ConstantExpression, VariableExpression, AbsExpression
         from mathy_core.layout import TreeLayout
         from mathy_core import problems
+        if k % 5 == 0 and not _BUMPED:
+            # once per process: push the library's global node-id counter past a size class (ids get longer, cross 2^16 / 10^5 ...)
+            _BUMPED.append(1)
+            from mathy_core.expressions import ConstantExpression as _C
+            for _ in range((1200, 70000, 140000, 9000)[(os.getpid() + k) % 4]):
+                _C(1)
         p = ExpressionParser()
         t = p.parse("4x + 2y^3 - sgn(x)")
         for f in (lambda: t.terminal_text, lambda: t.to_math_ml(), lambda: t.evaluate({"x": 1.5, "y": -2}), lambda: TreeLayout().layout(t),
